@@ -101,6 +101,7 @@ def unit(spec):
             pairs.append((c, p, ref, pid))
     compiled = k3.compile_schemas(schemas)
     obls = []
+    searches = 0
     for c, p, ref, pid in pairs:
         a, b = compiled[ref], compiled[pid]
         name = 'permute[%s]' % ','.join(p)
@@ -125,13 +126,18 @@ def unit(spec):
             o['verifier_output'] = {'first': template(c), 'second': template(p)}
             env = dict(os.environ)
             env.pop('PYTHONPATH', None)
-            try:
-                r = subprocess.run([PY, '-c', DIFF, REPO, template(c), template(p)], capture_output=True,
-                                   text=True, timeout=300, env=env)
-                line = [ln for ln in r.stdout.strip().split('\n') if ln.startswith('{')]
-                d = json.loads(line[-1]) if line else {}
-            except Exception:
-                d = {}
+            d = {}
+            searches += 1
+            if searches <= 4:
+                # a rendering difference is searched for the first few differing pairs only (one
+                # witness is enough; on a changed tree hundreds of pairs may differ)
+                try:
+                    r = subprocess.run([PY, '-c', DIFF, REPO, template(c), template(p)], capture_output=True,
+                                       text=True, timeout=300, env=env)
+                    line = [ln for ln in r.stdout.strip().split('\n') if ln.startswith('{')]
+                    d = json.loads(line[-1]) if line else {}
+                except Exception:
+                    d = {}
             if d:
                 o['confirmed'] = True
                 o['witness'] = {'inputs': dict(d['bindings'], first_template=template(c),
